@@ -161,4 +161,12 @@ def DssStep (c : Call) (pre : St) (r : Res) : Prop :=
       else ReshuffleStep ⟨incAge pre.tr, incAge pre.va⟩ r.st ∧ r.ret = true ∧ r.clears = 1
   | .close _ => r.st.tr = [] ∧ r.st.va = pre.va ++ pre.tr ∧ r.clears = 1
 
+/-- one call of the modelled interface -/
+def applyCall (P : Partitioner) (ts : Nat → Nat) (c : Call) (sel : Nat → Bool) (s : St) : Res :=
+  match c with
+  | .init _ => dssInit P ts sel s
+  | .shake gap g => dssShake P ts gap g sel s
+  | .close _ => dssClose s
+
+
 end Vita.C16
